@@ -4,17 +4,17 @@
 package guardiansets
 
 // indexed: the list holds exactly the sets 0..current, each at the position of its index.
-//@ pred indexed(gs *GuardianSets) = gs != nil && 0 <= gs.currentGuardianSetIndex && gs.currentGuardianSetIndex < 4294967295 && len(gs.guardianSetLists) == gs.currentGuardianSetIndex + 1 && (forall i in 0..len(gs.guardianSetLists) :: gs.guardianSetLists[i] != nil && allocated(gs.guardianSetLists[i]) && gs.guardianSetLists[i].Index == i)
+//@ pred indexed(gs *GuardianSets) = gs != nil && 0 <= gs.currentGuardianSetIndex && gs.currentGuardianSetIndex <= 4294967295 && len(gs.guardianSetLists) == gs.currentGuardianSetIndex + 1 && (forall i in 0..len(gs.guardianSetLists) :: gs.guardianSetLists[i] != nil && allocated(gs.guardianSetLists[i]) && gs.guardianSetLists[i].Index == i)
 // consecutive: what the chain query returns - sets from..to in order, each carrying its index
 //@ pred consecutive(s []*common.GuardianSet, from int) = forall k in 0..len(s) :: s[k] != nil && allocated(s[k]) && s[k].Index == from + k
 
 //@ func getGuardianSetsFromChain(ctx context.Context, contract *abi.Abi, fromIndex uint32, toIndex uint32) (sets []*common.GuardianSet, err error)
 //@   props C19
-//@   requires toIndex < 4294967295
 //@   ensures [consecutive] err == nil ==> consecutive(sets, fromIndex) && (fromIndex <= toIndex ==> len(sets) == toIndex - fromIndex + 1) && (fromIndex > toIndex ==> len(sets) == 0)
 //@   modifies fresh common.GuardianSet.*
 //@   loop [index <= toIndex]:
 //@     invariant [progress] fromIndex <= index && (index <= toIndex + 1 || index == fromIndex) && len(guardianSets) == index - fromIndex
+//@     decreases toIndex - index + 1
 //@     invariant [consecutive] consecutive(guardianSets, fromIndex) && (forall k in 0..len(guardianSets) :: fresh(guardianSets[k]))
 
 // a run of consecutive indices starting at or below t and ending above it contains t
@@ -26,7 +26,7 @@ package guardiansets
 //@ func (gs *GuardianSets) updateGuardianSets(sets []*common.GuardianSet) (err error)
 //@   props C19
 //@   requires indexed(gs)
-//@   requires [from-chain] len(sets) > 0 ==> consecutive(sets, sets[0].Index) && sets[0].Index <= gs.currentGuardianSetIndex + 1 && sets[0].Index + len(sets) <= 4294967295
+//@   requires [from-chain] len(sets) > 0 ==> consecutive(sets, sets[0].Index) && sets[0].Index <= gs.currentGuardianSetIndex + 1 && sets[0].Index + len(sets) <= 4294967296
 //@   ensures [indexed] indexed(gs)
 //@   ensures [only-grows] gs.currentGuardianSetIndex >= old(gs.currentGuardianSetIndex) && (forall i in 0..old(len(gs.guardianSetLists)) :: gs.guardianSetLists[i] == old(gs.guardianSetLists[i]))
 //@   modifies GuardianSets.currentGuardianSetIndex, GuardianSets.guardianSetLists
@@ -43,8 +43,7 @@ package guardiansets
 
 //@ func (gs *GuardianSets) GetGuardianSet(ctx context.Context, index int) (s *common.GuardianSet, err error)
 //@   props C19
-//@   requires indexed(gs) && 0 <= index
-//@   requires [query-terminates] index < 4294967295
+//@   requires indexed(gs) && 0 <= index && index <= 4294967295
 //@   ensures [set-with-that-index] err == nil ==> s != nil && s.Index == index
 //@   ensures [indexed] indexed(gs)
 //@   modifies GuardianSets.currentGuardianSetIndex, GuardianSets.guardianSetLists, chan:*common.GuardianSet, fresh common.GuardianSet.*
